@@ -3,7 +3,7 @@
 //!
 //! case: <id> <cfg> <history tokens...> # <limit per (class,kind)> [# <class>.<kind>.<ord>.<sticky> ...]
 //! output: <id> then one field per faulted run:
-//!   <class>.<kind>.<ord>.<sticky>|<fired>|<token results, comma separated>|<reopen>|<scan>
+//!   <class>.<kind>.<ord>.<sticky: 0 transient, 1 sticky, 2 transient after the whole buffer was written>|<fired>|<token results, comma separated>|<reopen>|<scan>
 use std::collections::BTreeMap;
 
 use crate::simfs::{FaultPlan, SimFs};
@@ -73,7 +73,8 @@ pub fn run_fault(line: &str) -> String {
                     path_part: part.to_string(),
                     ordinal: f[2].parse().unwrap(),
                     sticky: f[3] == "1",
-                    partial: 0,
+                    // mode 2: every byte of the write reaches the file, then the call fails
+                    partial: if f[3] == "2" { usize::MAX } else { 0 },
                 },
             ));
         }
@@ -106,6 +107,20 @@ pub fn run_fault(line: &str) -> String {
                             ordinal: ord,
                             sticky,
                             partial: 0,
+                        },
+                    ));
+                }
+                // a write to the manifest or a log that reaches the file completely and is then
+                // reported as failed (mode 2)
+                if class == "write" && (kind == "manifest" || kind == "wal") {
+                    plans.push((
+                        format!("{}.{}.{}.2", class, kind, ord),
+                        FaultPlan {
+                            class: class.clone(),
+                            path_part: part.to_string(),
+                            ordinal: ord,
+                            sticky: false,
+                            partial: usize::MAX,
                         },
                     ));
                 }
